@@ -17,12 +17,13 @@ import (
 )
 
 type replayCase struct {
-	Part string      `json:"part"` // out | asm | line
-	Out  *outCase    `json:"out,omitempty"`
-	Asm  *asmConfig  `json:"asm,omitempty"`
-	Line *lineConfig `json:"line,omitempty"`
-	Cont *contCase   `json:"cont,omitempty"`
-	Hist []string    `json:"hist,omitempty"`
+	Part  string      `json:"part"` // out | asm | line
+	Out   *outCase    `json:"out,omitempty"`
+	Asm   *asmConfig  `json:"asm,omitempty"`
+	Line  *lineConfig `json:"line,omitempty"`
+	Cont  *contCase   `json:"cont,omitempty"`
+	Regen *regenCase  `json:"regen,omitempty"`
+	Hist  []string    `json:"hist,omitempty"`
 }
 
 // onLeak is installed on every World (see c08): leaked library goroutines wedge the bubble.
@@ -103,6 +104,8 @@ func TestCheck(t *testing.T) {
 				checkLine(c, t, *rc.Line, hist)
 			case "cont":
 				checkContention(c, t, *rc.Cont)
+			case "regen":
+				checkRegen(c, t, *rc.Regen)
 			default:
 				c.HarnessError("bad replay part %q", rc.Part)
 			}
@@ -113,6 +116,7 @@ func TestCheck(t *testing.T) {
 		part := os.Getenv("C17_PART") // debugging aid: run one part only
 		if part == "" || part == "cont" {
 			partContention(c, t)
+			partRegen(c, t)
 		}
 		t0 := time.Now()
 		lap := func(name string) {
